@@ -32,12 +32,12 @@ Proof.
 Qed.
 
 (* one unit of fuel more than there are masks changes nothing *)
-Lemma masks_fuel n : forall data p acc, length data = (2 * n)%nat ->
+Lemma masks_fuel n : forall data p acc, (length data <= 2 * n)%nat ->
   masks_loop data (S n) p acc = masks_loop data n p acc.
 Proof.
   induction n as [|n IH]; intros data p acc L.
-  - destruct data; [reflexivity|discriminate L].
-  - destruct data as [|a [|b rest]]; cbn [length] in L; try lia.
+  - destruct data; [reflexivity|cbn [length] in L; lia].
+  - destruct data as [|a [|b rest]]; [reflexivity|reflexivity|]. cbn [length] in L.
     change (masks_loop (a :: b :: rest) (S (S n)) p acc) with
       (let cm := dec_chmask_list [a; b] in
        if existsb (fun x => x) cm then masks_loop rest (S n) [] (acc ++ p ++ [cm]) else masks_loop rest (S n) (p ++ [cm]) acc).
@@ -63,7 +63,7 @@ Proof.
   generalize masks_chk. generalize masks_loop. intros ml mc M F.
   eval_slices.
   match goal with |- context [N.eqb ?t 1] => destruct (N.eqb t 1) end.
-  - rewrite (M 7%nat) by reflexivity. rewrite (F 7%nat) by reflexivity. reflexivity.
+  - rewrite (M 6%nat) by reflexivity. rewrite (F 7%nat) by (cbn [length]; lia). rewrite (F 6%nat) by (cbn [length]; lia). reflexivity.
   - reflexivity.
 Qed.
 
